@@ -24,7 +24,8 @@ SPEC = dict(
     ),
     bound=dict(
         quick="backward: programs with <= 2 ops (S1 all-grad, S2 depth 1, S1/L1off depth 1), all w in {-1,0,0.5,2}^rows for rows <= 2 (<= 3 at depth 1), "
-              "a covering family (every row takes every value) beyond; mtl: 1-op trunks x consecutive head assignments, all w in {-1,0,0.5,2}^tasks",
+              "a covering family (every row takes every value) beyond; mtl: 1-op trunks x consecutive head assignments, all w in {-1,0,0.5,2}^tasks; chunk sizes {1,2,m-1,m+1}; "
+              "generator inputs; column-major leaves; shared Sum()/Mean() instances; mtl_backward called twice on a retained graph",
         thorough="backward: all scenarios depth <= 2 plus S1 depth 3 (light); mtl: trunks <= 2 ops",
     ),
     assumptions=[
